@@ -1,6 +1,12 @@
 import Xp.Props.C01
 import Xp.Props.C09
 import Xp.Proofs.C02Crd
+import Xp.Proofs.C02World
+import Xp.Proofs.C02CrdEnv
+import Xp.Proofs.C02Two
+import Xp.Model.C02Unpub
+import Xp.Gen.C02Skel
+import Xp.Model.C02Skel
 /-
 C02 — Crossplane never modifies, adopts or deletes what another owner controls.
 
@@ -161,5 +167,287 @@ theorem xrd_crd_own_updated (w : Xp.C02Crd.Which) (s : Xp.C02Crd.St) (d : Xp.C02
 reads the CRD and fails, the CRD is untouched -/
 example : run Xp.C02Crd.sem Plan.allOk 0 (Xp.C02Crd.reconcile .definition) Xp.C02Crd.exForeign =
     ({ Xp.C02Crd.exForeign with xrd := some ⟨false, true, false, true, .none, 3⟩, next := 3 }, some .err) := by decide
+
+/-! ### derived CRDs with concurrent writers between two API calls (model `Xp.C02CrdEnv`) -/
+
+/-- **Derived CRDs, left exactly as they were under interference.** For every third party
+obeying the rely (whatever it writes into the CRD slot gets a fresh resourceVersion), every
+fault plan, both reconcilers, XRD live or deleting: at the moment of every own API call, a CRD
+with the derived name that is controlled by somebody else AT THAT MOMENT is in the store after
+the call exactly as it was — the `Update` of `Apply(crd, MustBeControllableBy(xrd))` is
+refused (it carries the resourceVersion of the copy the guard was evaluated on), the `Create`
+answers AlreadyExists — unless the call is the deletion branch's `Delete`, this reconcile's own
+Get had returned the CRD controlled by the XRD, and somebody else wrote it since
+(`xrd_crd_delete_window_witness`). -/
+theorem xrd_crd_foreign_untouched_under_interference (w : Xp.C02Crd.Which) (env : Env Xp.C02CrdEnv.E)
+    (henv : ∀ k e, Xp.C02CrdEnv.Rely e (env k e)) (plan : Plan) (e : Xp.C02CrdEnv.E) (he : Xp.C02CrdEnv.Inv e) :
+    ∀ x ∈ ownE Xp.C02CrdEnv.sem env plan 0 (Xp.C02Crd.reconcile w) e, ∀ c, x.1.base.crd = some c → c.ctrl = .other →
+      (Xp.C02CrdEnv.exec x.1 x.2).1.base.crd = some c ∨
+      (x.2 = .deleteCRD ∧ ∃ c0, x.1.seen = some (some c0) ∧ c0.ctrl = .xrd ∧ c0.rv ≠ c.rv) :=
+  Xp.C02CrdEnv.crd_foreign_untouched_under_interference w env henv plan e he
+
+/-- Every write either reconciler addresses to the CRD rests on a Get of that same reconcile:
+an Update carries the resourceVersion of a copy found controllable, a Delete follows a Get that
+returned the CRD controlled by the XRD, a Create follows NotFound — under every third party and
+fault plan. -/
+theorem xrd_crd_writes_rest_on_a_read (w : Xp.C02Crd.Which) (env : Env Xp.C02CrdEnv.E)
+    (henv : ∀ k e, Xp.C02CrdEnv.Rely e (env k e)) (plan : Plan) (e : Xp.C02CrdEnv.E) (he : Xp.C02CrdEnv.Inv e) :
+    ∀ x ∈ ownE Xp.C02CrdEnv.sem env plan 0 (Xp.C02Crd.reconcile w) e, Xp.C02CrdEnv.guard x.1.seen x.2 :=
+  fun x hx => (Xp.C02CrdEnv.interference_guarantees w env henv plan e he x hx).2
+
+/-- the concurrent writers of the correspondence harness obey the rely -/
+theorem harness_crd_writers_obey_rely (i : Nat) (a : Xp.C02CrdEnv.Act) :
+    ∀ j e, Xp.C02CrdEnv.Rely e (Xp.C02CrdEnv.actAt i a j e) :=
+  Xp.C02CrdEnv.actAt_rely i a
+
+/-- a deleting XRD whose established CRD it controls (calls: 0 Get XRD, 1 status Terminating,
+2 Get CRD, 3 DeleteAllOf, 4 List, 5 Delete CRD) -/
+def exDeletingOwn : Xp.C02CrdEnv.E :=
+  { base := Xp.C02Crd.exDeleting ⟨.xrd, false, .rendered, true, false, false, 2⟩ }
+
+example : Xp.C02CrdEnv.Inv exDeletingOwn := Xp.C02CrdEnv.inv_start _ (by decide)
+
+/-- **The deletion window is a property of the unchanged code**: another owner takes the CRD
+over after the reconciler's Get (before call 4): `metav1.IsControlledBy` was evaluated on the
+copy, `client.Delete` carries no precondition, the CRD that is somebody else's by now is
+deleted. Taken over BEFORE the Get (call 2) it is left alone and the finalizer removed. -/
+theorem xrd_crd_delete_window_witness :
+    (runE Xp.C02CrdEnv.sem (Xp.C02CrdEnv.actAt 4 .adopt) Plan.allOk 0 (Xp.C02Crd.reconcile .definition) exDeletingOwn).1.base.crd = none ∧
+    (runE Xp.C02CrdEnv.sem (Xp.C02CrdEnv.actAt 2 .adopt) Plan.allOk 0 (Xp.C02Crd.reconcile .definition) exDeletingOwn).1.base.crd
+      = some ⟨.other, false, .rendered, true, false, false, 4⟩ := by
+  decide
+
+/-- a live XRD whose outdated CRD is taken over between Apply's Get (call 1) and its Update
+(call 2): the Update is refused, the reconcile requeues, the CRD stays as the third party left it -/
+example : runE Xp.C02CrdEnv.sem (Xp.C02CrdEnv.actAt 2 .adopt) Plan.allOk 0 (Xp.C02Crd.reconcile .offered)
+      { base := { xrd := some ⟨false, true, false, true, .none, 1⟩, crd := some ⟨.xrd, false, .old, true, false, false, 2⟩, next := 2 } } =
+    ({ base := { xrd := some ⟨false, true, false, true, .none, 1⟩, crd := some ⟨.other, false, .old, true, false, false, 3⟩, next := 3 },
+       seen := some (some ⟨.xrd, false, .old, true, false, false, 2⟩) }, some .requeue) := by
+  decide
+
+/-! ### a third party between two API calls of one reconcile (model `Xp.C02World`)
+
+`Xp.C02World.sem` is the API server of `Xp.C01` with resourceVersions (a label clean-up Update
+of a composed resource that changed since this reconcile read it is refused) and with a third
+party `env : Env W` acting before every call (`Xp.runE`), constrained only by
+`Xp.C02World.Rely`: whatever it writes gets a new resourceVersion. The programs are the
+unchanged `Xp.C01.reconcile` of both composers. -/
+
+/-- **Left exactly as it was, also under interference.** For every third party obeying the
+rely, every fault plan, either composer with every function output / template list /
+generated name / loop order: at the moment of every own API call, every composed resource that
+is controlled by somebody else AT THAT MOMENT is in the store after the call exactly as it was
+before it — unless the call is a Delete or a (P&T) merge patch addressed to it, a Get of this
+very reconcile had returned it NOT controlled by somebody else ("it was ours at the deciding
+read"), and somebody else has written it since that Get. Those two windows exist in the
+unchanged code (`delete_window_witness`, `patch_window_witness`; findings D36, D37). -/
+theorem composers_foreign_untouched_under_interference (md : Mode) (hmd : Xp.C02World.ModeDisc md)
+    (env : Env Xp.C02World.W) (henv : ∀ k w, Xp.C02World.Rely w (env k w)) (plan : Plan)
+    (w : Xp.C02World.W) (hw : Xp.C02World.Inv w) :
+    ∀ x ∈ ownE Xp.C02World.sem env plan 0 (reconcile md) w, ∀ o ∈ x.1.base.objs, o.ctrl = .other →
+      o ∈ (Xp.C02World.exec x.1 x.2).1.base.objs ∨
+      ((x.2 = .delete o.kind o.name ∨ ∃ a c, x.2 = .mergePatch o.kind o.name a c) ∧
+        key o ∈ x.1.mine ∧ key o ∈ x.1.stale) :=
+  Xp.C02World.foreign_untouched_under_interference md hmd env henv plan w hw
+
+/-- **A write past the API server's own ownership checks is only ever addressed to an object
+that was not foreign at the deciding read**: every label clean-up Update, Delete and merge patch
+of a reconcile goes to a composed resource that a Get of that same reconcile returned not
+controlled by somebody else — whatever the third party and the fault plan do. -/
+theorem composers_write_only_what_they_read_as_theirs (md : Mode) (hmd : Xp.C02World.ModeDisc md)
+    (env : Env Xp.C02World.W) (henv : ∀ k w, Xp.C02World.Rely w (env k w)) (plan : Plan)
+    (w : Xp.C02World.W) (hw : Xp.C02World.Inv w) :
+    ∀ x ∈ ownE Xp.C02World.sem env plan 0 (reconcile md) w, ∀ t, Xp.C02World.target x.2 = some t → t ∈ x.1.mine :=
+  fun x hx => (Xp.C02World.interference_guarantees md hmd env henv plan w hw x hx).2
+
+/-- **Adoption between observe and garbage collection.** The label clean-up Update in front of
+both garbage collectors' Delete never lands on a composed resource that is controlled by somebody
+else at that moment: it is answered 409 Conflict and writes nothing (and the composers then stop:
+`Xp.C01.wcall` maps a Conflict to a requeue). -/
+theorem composers_cleanup_update_never_applied_to_foreign (md : Mode) (hmd : Xp.C02World.ModeDisc md)
+    (env : Env Xp.C02World.W) (henv : ∀ k w, Xp.C02World.Rely w (env k w)) (plan : Plan)
+    (w : Xp.C02World.W) (hw : Xp.C02World.Inv w) :
+    ∀ x ∈ ownE Xp.C02World.sem env plan 0 (reconcile md) w, ∀ k n, x.2 = .gcUpdate k n →
+      Xp.C02World.foreignAt x.1 ⟨k, n⟩ = true → Xp.C02World.exec x.1 x.2 = (x.1, .conflict) :=
+  Xp.C02World.cleanup_update_never_applied_to_foreign md hmd env henv plan w hw
+
+/-- The syntactic discipline behind it: along EVERY path of either composer's program (every
+reply the API server could give), an unchecked write is preceded by a Get of the same object
+that returned it not foreign. -/
+theorem composers_obey_read_before_write_discipline (md : Mode) (hmd : Xp.C02World.ModeDisc md) (m : List Ref) :
+    Xp.C02World.Disc m (reconcile md) :=
+  Xp.C02World.disc_reconcile md hmd m
+
+/-- the third party of the correspondence harness (one adoption before call `i`) obeys the rely -/
+theorem harness_adoption_obeys_rely (i : Nat) (k n : String) :
+    ∀ j w, Xp.C02World.Rely w (Xp.C02World.adoptAt i k n j w) :=
+  Xp.C02World.adoptAt_rely i k n
+
+/-- a world within the hypotheses: the XR controls `KA/x` (desired resource `a`) -/
+def exWorld : Xp.C02World.W :=
+  { base := { xrFin := true, xrRv := 0, refs := [⟨"KA", "x"⟩], objs := [⟨"KA", "x", "a", .xr, false, false, 1, true⟩] } }
+
+/-- function composer, the pipeline returns no desired resources (`KA/x` is garbage) -/
+def exDropAll : Mode := .fn (fun _ => .desired []) ⟨"v1", [], id, id⟩
+/-- P&T composer, one template `a` of kind KA with content 2 -/
+def exKeepPT : Mode := .pt [⟨"a", "KA", 2, true⟩] [] "v1"
+
+example : Xp.C02World.Inv exWorld := Xp.C02World.inv_start _ (by decide) []
+example : Xp.C02World.ModeDisc exDropAll := fun _ _ h => h
+example : Xp.C02World.ModeDisc exKeepPT := trivial
+
+/-- the calls of the garbage-collecting reconcile: 0 Get XR, 1 Get KA/x, 2 Update (labels),
+3 Delete, 4 apply refs, 5 apply status, 6 status update. Adoption before call 2 (between
+observe and garbage collection): the Update is refused, the adopted object stays, exactly as
+the third party left it, and the reconcile requeues. -/
+example : (runE Xp.C02World.sem (Xp.C02World.adoptAt 2 "KA" "x") Plan.allOk 0 (reconcile exDropAll) exWorld).1.base.objs
+      = [⟨"KA", "x", "a", .other, false, false, 1, true⟩] ∧
+    (runE Xp.C02World.sem (Xp.C02World.adoptAt 2 "KA" "x") Plan.allOk 0 (reconcile exDropAll) exWorld).2 = some .handled := by
+  decide
+
+/-- P&T composer whose composition has no template left (`KA/x` is garbage): calls 0 Get XR,
+1 Get KA/x, 2 Update (labels), 3 Delete, 4 Update XR, … -/
+def exDropAllPT : Mode := .pt [] [] "v1"
+example : Xp.C02World.ModeDisc exDropAllPT := trivial
+
+/-- **D36 is a property of the unchanged code**: adoption before call 3 (between this
+reconcile's own successful label clean-up and the Delete): the Delete carries no precondition
+and removes the object the third party controls — both garbage collectors (for the function
+composer the run is cut right after the Delete: the rest of it sorts references, which the
+kernel does not evaluate). The exception clause of
+`composers_foreign_untouched_under_interference` cannot be dropped. -/
+theorem delete_window_witness :
+    (runE Xp.C02World.sem (Xp.C02World.adoptAt 3 "KA" "x") Plan.allOk 0 (reconcile exDropAllPT) exWorld).1.base.objs = [] ∧
+    (runE Xp.C02World.sem (Xp.C02World.adoptAt 3 "KA" "x") (Plan.at 3 .crashAfter) 0 (reconcile exDropAll) exWorld).1.base.objs = [] ∧
+    -- the same adoption one call earlier is fenced off by the resourceVersion check
+    (runE Xp.C02World.sem (Xp.C02World.adoptAt 2 "KA" "x") Plan.allOk 0 (reconcile exDropAllPT) exWorld).1.base.objs
+      = [⟨"KA", "x", "a", .other, false, false, 1, true⟩] := by
+  decide
+
+/-- **D37 is a property of the unchanged code**: P&T, calls 0 Get XR, 1 Get KA/x (associate),
+2 Update XR, 3 Get KA/x (Apply), 4 merge patch. Adoption before call 4: the patch carries no
+resourceVersion, its ownerReferences replace the third party's, the object is taken back. -/
+theorem patch_window_witness :
+    (runE Xp.C02World.sem (Xp.C02World.adoptAt 4 "KA" "x") Plan.allOk 0 (reconcile exKeepPT) exWorld).1.base.objs
+      = [⟨"KA", "x", "a", .xr, false, false, 2, true⟩] := by
+  decide
+
+/-- … whereas an adoption before the Apply's own Get (call 3) is seen: MustBeControllableBy
+fails, nothing is written -/
+example : (runE Xp.C02World.sem (Xp.C02World.adoptAt 3 "KA" "x") Plan.allOk 0 (reconcile exKeepPT) exWorld).1.base.objs
+      = [⟨"KA", "x", "a", .other, false, false, 1, true⟩] := by
+  decide
+
+/-! ### two XRs whose pipelines ask for the same explicit composed-resource name (model `Xp.C02Two`) -/
+
+/-- **The server-side-apply guard, with its hypothesis.** `ssa_apply_on_foreign_is_refused`
+takes "a second controller reference is Invalid" from the API-server model; that rests on the
+two XRs applying with different field managers. Stated with the managers explicit: for every
+field-manager function that separates XR `x` from XR `y`, a reconcile of `x` — whatever
+explicit name its pipeline asks for, the name of `y`'s object included — leaves every object
+controlled by `y` in the store exactly as it was. -/
+theorem two_xrs_other_object_untouched (mgr : Nat → String) (res : Nat → String) (x y c : Nat) (s : Xp.C02Two.St)
+    (hwf : Xp.C02Two.WF mgr s) (hnd : (s.objs.map (·.name)).Nodup) (hxy : y ≠ x) (hm : mgr y ≠ mgr x)
+    (o : Xp.C02Two.Obj) (ho : o ∈ s.objs) (hy : o.ctrl = some y) : o ∈ (Xp.C02Two.step mgr res x c s).1.objs :=
+  Xp.C02Two.step_leaves_other_xr_untouched mgr res x y c s hwf hnd hxy hm o ho hy
+
+/-- … over every history of reconciles of other XRs. -/
+theorem two_xrs_other_object_untouched_history (mgr : Nat → String) (res : Nat → String) (y : Nat)
+    (h : List (Nat × Nat)) (hh : ∀ p ∈ h, p.1 ≠ y ∧ mgr y ≠ mgr p.1) (s : Xp.C02Two.St)
+    (hwf : Xp.C02Two.WF mgr s) (hnd : (s.objs.map (·.name)).Nodup) :
+    ∀ o ∈ s.objs, o.ctrl = some y → o ∈ (Xp.C02Two.runSteps mgr res h s).objs :=
+  Xp.C02Two.history_leaves_other_xr_untouched mgr res y h hh s hwf hnd
+
+/-- XR 0 has applied `shared` (content 1) with its own manager -/
+def exTwo : Xp.C02Two.St := { objs := [⟨"shared", [(0, "m0")], 1⟩], hasRef := [0] }
+
+/-- with separate managers XR 1's apply of the same name is rejected and reported unsynced … -/
+example : Xp.C02Two.step (fun i => if i = 0 then "m0" else "m1") (fun _ => "shared") 1 2 exTwo =
+    ({ objs := [⟨"shared", [(0, "m0")], 1⟩], hasRef := [1, 0] },
+     { calls := ["patch KA/shared apply ok>invalid"], synced := false }) := by decide
+
+/-- **… and the hypothesis is needed**: were the field manager the same for both XRs (a name
+cut at the 128-character limit, a hash over too little), XR 1's apply would drop XR 0's
+controller reference and take the object over. -/
+theorem shared_field_manager_takes_over_witness :
+    (Xp.C02Two.step (fun _ => "m") (fun _ => "shared") 1 2 { objs := [⟨"shared", [(0, "m")], 1⟩], hasRef := [0] }).1.objs =
+      [⟨"shared", [(1, "m")], 2⟩] := by decide
+
+/-- **`ComposedFieldOwnerName` separates XRs whose names share a long prefix** (regenerated
+from the current tree): the name it returns has the same length (prefix, '/', 64 hex digits)
+for a 1-character and for 204-character XR names, within the 128 characters a field-manager
+name may have, and differs for two XRs whose names share their first 200 characters. -/
+theorem field_owner_name_is_not_cut_and_separates_long_names :
+    Xp.Gen.c02FieldOwnerLens = [101, 101, 101] ∧ Xp.Gen.c02FieldOwnerLongNamesDiffer = true ∧
+    Xp.Gen.c02FieldOwnerComposedPrefix = "apiextensions.crossplane.io/composed" := by decide
+
+/-! ### histories of reconciles, each with its own third party -/
+
+/-- `composers_foreign_untouched_under_interference` over every history of reconciles, each with
+its own third party, fault plan, composer, function output / templates, names and loop orders
+(every reconcile starts without copies of composed resources). -/
+theorem composers_foreign_untouched_under_interference_history
+    (h : List (Env Xp.C02World.W × Plan × Mode))
+    (hh : ∀ e ∈ h, (∀ k w, Xp.C02World.Rely w (e.1 k w)) ∧ Xp.C02World.ModeDisc e.2.2)
+    (w : Xp.C02World.W) (hw : Xp.C02World.Inv w) :
+    ∀ x ∈ Xp.C02World.ownRounds h w, ∀ o ∈ x.1.base.objs, o.ctrl = .other →
+      o ∈ (Xp.C02World.exec x.1 x.2).1.base.objs ∨
+      ((x.2 = .delete o.kind o.name ∨ ∃ a c, x.2 = .mergePatch o.kind o.name a c) ∧
+        key o ∈ x.1.mine ∧ key o ∈ x.1.stale) :=
+  Xp.C02World.foreign_untouched_under_interference_history h hh w hw
+
+/-- `xrd_crd_foreign_untouched_under_interference` over every history of reconciles of the
+definition and offered reconcilers in any interleaving, each with its own third party. -/
+theorem xrd_crd_foreign_untouched_under_interference_history
+    (h : List (Env Xp.C02CrdEnv.E × Plan × Xp.C02Crd.Which)) (hh : ∀ r ∈ h, ∀ k e, Xp.C02CrdEnv.Rely e (r.1 k e))
+    (e : Xp.C02CrdEnv.E) (he : Xp.C02CrdEnv.Inv e) :
+    ∀ x ∈ Xp.C02CrdEnv.ownRounds h e, ∀ c, x.1.base.crd = some c → c.ctrl = .other →
+      (Xp.C02CrdEnv.exec x.1 x.2).1.base.crd = some c ∨
+      (x.2 = .deleteCRD ∧ ∃ c0, x.1.seen = some (some c0) ∧ c0.ctrl = .xrd ∧ c0.rv ≠ c.rv) :=
+  Xp.C02CrdEnv.crd_foreign_untouched_under_interference_history h hh e he
+
+example : Xp.C02World.ownRounds [(Xp.C02World.adoptAt 2 "KA" "x", Plan.allOk, exDropAllPT)] exWorld ≠ [] := by decide
+
+/-! ### the claim's connection secret when the claim is deleted (model `Xp.C02Unpub`) -/
+
+/-- **Not deleted either.** However often a deleting claim is reconciled, the secret its
+`writeConnectionSecretToRef` names — controlled by another claim, by nobody, or by this claim —
+is what it was, and no API call is addressed to a secret: the reconciler's default
+ConnectionUnpublisher is the no-op (`claim_default_unpublisher_is_nop` ties that to the tree). -/
+theorem claim_deletion_leaves_named_secret (c : Xp.C02Unpub.Claim) (n : Nat) (s : Option Xp.C02Unpub.Ctrl) :
+    Xp.C02Unpub.unpublishN c n s = ([], s) := by
+  induction n generalizing s with
+  | zero => rfl
+  | succ n ih => simp [Xp.C02Unpub.unpublishN, Xp.C02Unpub.unpublish, ih]
+
+/-- regenerated from the current tree: the claim reconciler built by `claim.NewReconciler` with
+default options unpublishes with a `NopConnectionUnpublisher`, whose `UnpublishConnection`
+issues no call; and the reconciler's delete / unpublish / finalizer / propagate calls are in
+the order the model assumes. -/
+theorem claim_default_unpublisher_is_nop :
+    Xp.Gen.c02ClaimDefaultUnpublisher = "*claim.NopConnectionUnpublisher" ∧ Xp.Gen.c02SkelNopUnpublish = [] ∧
+    Xp.Gen.c02SkelClaimReconcile =
+      ["client.Delete", "claim.UnpublishConnection", "claim.RemoveFinalizer", "claim.AddFinalizer", "composite.PropagateConnection"] := by
+  decide
+
+example : Xp.C02Unpub.unpublishN ⟨true, true⟩ 3 (some .other) = ([], some .other) := by decide
+
+/-! ### call skeletons of the modelled Go functions, regenerated from the source on every run
+
+Inserting, removing or reordering an API call, a wrapped helper or an ownership guard
+(`GetControllerOf`, `IsControlledBy`, `MustBeControllableBy`, `ConnectionSecretMustBeControllableBy`)
+in one of these functions breaks the obligation before any scenario runs; the declared lists
+(`Xp.C02Skel`) say, entry by entry, which model step mirrors the call. -/
+
+theorem skeleton_definition_reconcile : Xp.Gen.c02SkelDefinitionReconcile = Xp.C02Skel.definitionReconcile := by decide
+theorem skeleton_offered_reconcile : Xp.Gen.c02SkelOfferedReconcile = Xp.C02Skel.offeredReconcile := by decide
+theorem skeleton_observe : Xp.Gen.c02SkelObserve = Xp.C02Skel.observe := by decide
+theorem skeleton_garbage_collect : Xp.Gen.c02SkelGarbageCollect = Xp.C02Skel.garbageCollect := by decide
+theorem skeleton_fn_compose : Xp.Gen.c02SkelFnCompose = Xp.C02Skel.fnCompose := by decide
+theorem skeleton_associate : Xp.Gen.c02SkelAssociate = Xp.C02Skel.associate := by decide
+theorem skeleton_pt_compose : Xp.Gen.c02SkelPTCompose = Xp.C02Skel.ptCompose := by decide
+theorem skeleton_xr_reconcile : Xp.Gen.c02SkelXRReconcile = Xp.C02Skel.xrReconcile := by decide
+theorem skeleton_publish : Xp.Gen.c02SkelPublish = Xp.C02Skel.publish := by decide
+theorem skeleton_propagate : Xp.Gen.c02SkelPropagate = Xp.C02Skel.propagate := by decide
 
 end Xp.C02
